@@ -535,6 +535,21 @@ def _run_msg(case, res, log):
     except Reject as e:
         verdict = ("reject", e.reason)
     wires = render_messages(b, msgs)
+    # make_query / extract_serial_from_query agree with the zone and with each other
+    try:
+        zq, zs = dns.xfr.make_query(b.zone)  # serial taken from the zone
+        want_serial = versions[case["k"]][0]
+        if zs != want_serial or dns.xfr.extract_serial_from_query(zq) != want_serial or zq.question[0].rdtype != dns.rdatatype.IXFR:
+            raise Violation("C13:make-query", f"make_query(zone) -> serial {zs}, zone is at {want_serial}")
+        if want_serial != 0:
+            eq, es = dns.xfr.make_query(b.zone, serial=want_serial)
+            if es != want_serial or dns.xfr.extract_serial_from_query(eq) != want_serial:
+                raise Violation("C13:make-query", f"make_query(zone, serial={want_serial}) -> {es}")
+        aq, as_ = dns.xfr.make_query(b.zone, serial=None)
+        if as_ is not None or dns.xfr.extract_serial_from_query(aq) is not None or aq.question[0].rdtype != dns.rdatatype.AXFR:
+            raise Violation("C13:make-query", "make_query(serial=None) is not an AXFR query")
+    except (ValueError, KeyError) as e:
+        raise Violation("C13:make-query", f"make_query / extract_serial_from_query raised {type(e).__name__}: {e} for a zone at serial {versions[case['k']][0]}")
     before, before_ids = _snapshot_everything(b)
     origin = b.zone.from_wire_origin()
     rdtype = dns.rdatatype.AXFR if mode == "AXFR" else dns.rdatatype.IXFR
